@@ -517,8 +517,8 @@ func TestC37(t *testing.T) {
 				for wi, w := range windows {
 					for _, ro := range []bool{(wi+round+ci)%2 == 0} { // the read-only option alternates over windows, rounds and configurations
 						c := cfg{n: n, rate: r, window: w, ro: ro}
-						if run.Quick() && w >= time.Second && (wi+ci)%4 == 3 {
-							continue // quick tier: every configuration sees three quarters of the windows, a different quarter is left out each time
+						if run.Quick() && w >= time.Second && (wi+ci)%3 == 2 {
+							continue // quick tier: every configuration sees two thirds of the windows, a different third is left out each time
 						}
 						if ok, err := probeConstructor(c); !ok {
 							if round == 0 {
